@@ -293,7 +293,7 @@ type c04Fail struct {
 }
 
 func genC04Fail(rt *rapid.T) c04Fail {
-	return c04Fail{Kind: rapid.SampledFrom([]string{"silent-client", "server-transport-closed", "client-transport-closed"}).Draw(rt, "kind"),
+	return c04Fail{Kind: rapid.SampledFrom([]string{"silent-client", "silent-after-initack", "server-transport-closed", "client-transport-closed"}).Draw(rt, "kind"),
 		RTOMax: rapid.SampledFrom([]int{1000, 2000, 5000, 0}).Draw(rt, "rtomax"), CloseMs: rapid.SampledFrom([]int{0, 1, 500, 999, 1000, 1001, 7000, 100000}).Draw(rt, "closems"),
 		IL: rapid.Bool().Draw(rt, "il"), ZC: rapid.Bool().Draw(rt, "zc")}
 }
@@ -336,6 +336,28 @@ func runC04Fail(t *testing.T, x c04Fail, verbose bool) (c vfCase) {
 			}
 			if n := p.count(wtINIT); n != 9 {
 				c.fail("init-retry-count", "%d INITs sent, want 1+8", n)
+			}
+		case "silent-after-initack":
+			// the peer answers the INIT and then falls silent: the COOKIE-ECHO budget decides
+			p.silent, p.noCookieAck = false, true
+			s.role[0] = 1
+			s.startSide(0)
+			s.o.run(func() bool { s.mu.Lock(); defer s.mu.Unlock(); return s.hsDone[0] }, time.Now().Add(total+6*time.Second))
+			s.mu.Lock()
+			done, err, at := s.hsDone[0], s.hsErr[0], s.hsAt[0]
+			s.mu.Unlock()
+			if !done {
+				c.fail("connect-hangs", "client whose peer answers INIT but never COOKIE-ECHO has not returned after %v (retry budget %v); %d COOKIE-ECHOs so far", total+6*time.Second, total, p.gotCookieEcho)
+				return
+			}
+			if err == nil {
+				c.fail("connect-no-error", "client whose COOKIE-ECHO is never answered returned success")
+			}
+			if at > total+2*time.Second {
+				c.fail("connect-late", "client returned at %v, budget %v", at, total)
+			}
+			if p.gotCookieEcho != 9 {
+				c.fail("cookie-echo-retry-count", "%d COOKIE-ECHOs sent, want 1+8", p.gotCookieEcho)
 			}
 		case "server-transport-closed", "client-transport-closed":
 			role := 2
